@@ -2,7 +2,7 @@
 # tools/seedtest.sh <seed-dir> <PROP> [tier]   e.g. tools/seedtest.sh /tmp/seed/C09/1 C09
 # Applies <seed-dir>/patch.diff in a scratch worktree of /repo, checks the demonstration (0 clean, 1 patched),
 # runs ./check PROP against the patched worktree and prints the verdict.  /repo itself is not touched.
-D="$1"; P="$2"; T="${3:-quick}"
+D="$(cd "$1" && pwd)"; P="$2"; T="${3:-quick}"
 WT=$(mktemp -d /tmp/st_XXXXXX); rmdir "$WT"
 git -C /repo worktree add -q "$WT" HEAD || exit 2
 cp /repo/pyyeti/rainflow/*.so "$WT/pyyeti/rainflow/" 2>/dev/null
@@ -10,6 +10,6 @@ cp /repo/pyyeti/rainflow/*.so "$WT/pyyeti/rainflow/" 2>/dev/null
 git -C "$WT" apply "$D/patch.diff" || { echo "PATCH DOES NOT APPLY"; git -C /repo worktree remove --force "$WT"; exit 2; }
 ( cd "$WT" && PYTHONPATH="$WT" /venv/bin/python "$D/demo.py" >/dev/null 2>&1 ); c1=$?
 echo "demo: clean=$c0 patched=$c1"
-cd /verif && PYYETI_REPO="$WT" ./check "$P" --tier "$T" 2>&1 | grep -v "RuntimeWarning\|warnings.warn" | tail -4
+cd "$(dirname "$0")/.." && PYYETI_REPO="$WT" ./check "$P" --tier "$T" 2>&1 | grep -v "RuntimeWarning\|warnings.warn" | tail -4
 echo "check exit: $?"
 git -C /repo worktree remove --force "$WT"; git -C /repo worktree prune
